@@ -476,7 +476,7 @@ func (h *OperationProvider) validateRequiredMultihash(mh, alias string) error {
 		return fmt.Errorf("missing %s", alias)
 	}
 
-	if len(mh) > int(h.MaxOperationHashLength) {
+	if uint(len(mh)) > h.MaxOperationHashLength {
 		return fmt.Errorf("%s length[%d] exceeds maximum hash length[%d]", alias, len(mh), h.MaxOperationHashLength)
 	}
 
@@ -820,7 +820,7 @@ func parseProvisionalIndexOperations(pif *models.ProvisionalIndexFile) *provisio
 }
 
 func (h *OperationProvider) validateURI(uri string) error {
-	if len(uri) > int(h.Protocol.MaxCasURILength) {
+	if uint(len(uri)) > h.Protocol.MaxCasURILength {
 		return fmt.Errorf("CAS URI length[%d] exceeds maximum CAS URI length[%d]", len(uri), h.Protocol.MaxCasURILength)
 	}
 
